@@ -200,13 +200,20 @@ pub fn vary_values(rng: &mut Rng, n: &mut RefNode, etype: ElementType, version: 
     }
 }
 
+/// number of comments placed in front of inline sub elements of mixed content (evidence counter)
+pub static MIXED_COMMENTS: std::sync::atomic::AtomicU64 = std::sync::atomic::AtomicU64::new(0);
+
 /// attach comments at legal places
 pub fn add_comments(rng: &mut Rng, n: &mut RefNode, share: (u32, u32), added: &mut u64) {
     let element_only = n.items.iter().all(|i| matches!(i, RefItem::Elem(_)));
     for item in n.items.iter_mut() {
         if let RefItem::Elem(c) = item {
-            // comment - text - element inside mixed content is not generated (semantics undefined)
-            if element_only && c.comment.is_none() && rng.chance(share.0, share.1) {
+            // comment - text - element inside mixed content is not generated (semantics undefined); a comment directly in front of
+            // the start tag of an inline sub element (text - comment - element) is attached to that element like any other
+            if c.comment.is_none() && rng.chance(share.0, share.1) {
+                if !element_only {
+                    MIXED_COMMENTS.fetch_add(1, std::sync::atomic::Ordering::Relaxed);
+                }
                 c.comment = Some((*rng.pick(&[" note ", "a - b", "<tag> & more", "", "x"])).to_string());
                 *added += 1;
             }
